@@ -89,6 +89,16 @@ CLAIMED = {
             'against Lang.tla starting from Lang\'s initial state, and the compiled program is compared before/after.',
             'Stops are injected by wrapping Machine._fn_table. Thread-level effects of stop on the real clock are C09/C10.',
             'DESIGN.md section 6, C17'),
+    'C13': ('model_checking', 'TLC-generated discovery/expiry histories (LightDir.tla) replayed into the real LightSet; every getter compared by TLC after every step',
+            'LightDir.tla is the reference directory (known lights with group, location and time last seen). TLC enumerates every '
+            'history of 3 steps (thorough: 4, sampled) over discover(snapshot)/failed discover/advance time/refresh/failed refresh '
+            'on a small alphabet; seeded random walks give long histories over a larger one. Each history is replayed into a real '
+            'LightSet over SimLan with virtual time; after every step all public getters, the group/location each Light reports '
+            'and next/prev from every probe (present, absent, below, above) are recorded and compared by TLC with LightDir\'s answers '
+            '(TraceLightDir.tla).',
+            'time.time in bardolph.controller.light is virtual; devices are SimLan objects. Long histories are random walks, not '
+            'TLC simulations (TLC\'s simulator is too slow on this alphabet).',
+            'DESIGN.md section 6, C13'),
 }
 
 REASONS_PENDING = 'check not built yet in this round (planned in DESIGN.md section 6); no claim is made'
